@@ -86,3 +86,15 @@ def mostDissimilar (Y : List Row) : Nat × Nat × List Rat × List Rat :=
   (i1, i2, s1, s2)
 
 end BB
+
+namespace BB
+
+/-- `jt_sim_matrix_packed`: ones on the diagonal, row `i` filled with the similarities of the later
+rows to row `i`, mirrored -/
+def simMatrix (rows : List Row) : List (List Rat) :=
+  (List.range rows.length).map (fun i => (List.range rows.length).map (fun j =>
+    if i = j then 1
+    else if i < j then jtBits (rows.getD j []) (rows.getD i [])
+    else jtBits (rows.getD i []) (rows.getD j [])))
+
+end BB
